@@ -29,6 +29,9 @@ def main():
     if pid == "C06":
         from . import c06
         return c06.run(rest)
+    if pid == "C10":
+        from . import c10
+        return c10.run(rest)
     if pid == "C16":
         from . import c16
         return c16.run(rest)
